@@ -1,6 +1,7 @@
 (* Proofs/CanonicalEmit.v — the serializer pipeline of Model/TomlValue.v (three loops, DocumentFormatter,
    visit_nested_tables / visit_table) writes exactly the canonical document of Spec/Canonical.v:
-     emit_value_doc ml m = sections_of ml true m       emit_table_doc ml m = sections_of ml false m   *)
+     emit_value_doc ml m = sections_of ml true true m      emit_table_doc ml m = sections_of ml false true m
+     emit_struct_doc ml m = sections_of ml false false m   (a serializer that keeps its own order)   *)
 From TV Require Import Base.Prelude Spec.Ordered Model.TomlValue Spec.Canonical.
 From TV Require Import Proofs.CanonicalBase.
 
@@ -51,6 +52,9 @@ Proof.
   - rewrite !nonempty_app. cbn [nonempty]. rewrite !orb_true_r. reflexivity.
 Qed.
 
+Lemma nonempty_ordn tn m : nonempty (ordn tn m) = nonempty m.
+Proof. destruct tn; [apply nonempty_order3|reflexivity]. Qed.
+
 (* ------------------------------------------------------------------------------------------ *)
 (** * the stages, one level unfolded *)
 
@@ -71,70 +75,83 @@ Proof.
   destruct (fmt_item ml x); reflexivity.
 Qed.
 
-Definition item_of (ml : bool) (kv : bytes * tv) : bytes * ditem := (fst kv, fmt_item ml (ser_value (snd kv))).
-(* the toml_edit table a toml::Value table becomes (three loops) / a toml::Table at the root (map order) *)
-Definition tbl3 (ml : bool) (m : list (bytes * tv)) : dt := DT (nonempty m) (map (item_of ml) (order3 m)).
-Definition tbl1 (ml : bool) (m : list (bytes * tv)) : dt := DT (nonempty m) (map (item_of ml) m).
+Definition item_of (ml tn : bool) (kv : bytes * tv) : bytes * ditem := (fst kv, fmt_item ml (ser_g tn (snd kv))).
+(* the toml_edit table a table becomes: its entries in the order `three` says, everything below by `tn` *)
+Definition tblg (ml three tn : bool) (m : list (bytes * tv)) : dt :=
+  DT (nonempty m) (map (item_of ml tn) (ordn three m)).
 
-Lemma fmt_item_tab ml m : fmt_item ml (ser_value (TTab m)) = ITbl (tbl3 ml m).
+Lemma fmt_item_tab ml tn m : fmt_item ml (ser_g tn (TTab m)) = ITbl (tblg ml tn tn m).
 Proof.
-  rewrite ser_value_tab, fmt_item_inl. unfold tbl3. rewrite nonempty_map, nonempty_order3, map_map. reflexivity.
+  rewrite ser_g_tab, fmt_item_inl. unfold tblg. rewrite nonempty_map, nonempty_ordn, map_map. reflexivity.
 Qed.
 
-Lemma fmt_root_value ml m : fmt_root ml (ser_root_value m) = tbl3 ml m.
+Lemma fmt_root_value ml m : fmt_root ml (ser_root_value m) = tblg ml true true m.
 Proof.
-  unfold fmt_root. rewrite ser_root_value_eq. unfold tbl3. rewrite nonempty_map, nonempty_order3, map_map. reflexivity.
+  unfold fmt_root. rewrite ser_root_value_eq. unfold tblg, ordn. rewrite nonempty_map, nonempty_order3, map_map. reflexivity.
 Qed.
 
-Lemma fmt_root_map ml m : fmt_root ml (ser_map m) = tbl1 ml m.
-Proof. unfold fmt_root, ser_map, tbl1. rewrite nonempty_map, map_map. reflexivity. Qed.
+Lemma fmt_root_map ml m : fmt_root ml (ser_map m) = tblg ml false true m.
+Proof. unfold fmt_root, ser_map, tblg, ordn. rewrite nonempty_map, map_map. reflexivity. Qed.
+
+Lemma fmt_root_plain ml m : fmt_root ml (ser_root_plain m) = tblg ml false false m.
+Proof.
+  unfold fmt_root, ser_root_plain. rewrite ser_plain_tab. unfold tblg, ordn. rewrite nonempty_map, map_map. reflexivity.
+Qed.
 
 (* inline rendering: the spec's inline_of is the formatter applied to the serializer's tree *)
-Lemma inline_of_tab ml m :
-  inline_of ml (TTab m) = VInl (map (fun kv => (fst kv, inline_of ml (snd kv))) (order3 m)).
+Lemma inline_of_tab ml tn m :
+  inline_of ml tn (TTab m) = VInl (map (fun kv => (fst kv, inline_of ml tn (snd kv))) (ordn tn m)).
 Proof.
-  cbn [inline_of]. f_equal. unfold order3. rewrite !map_app.
-  f_equal; [|f_equal]; induction m as [|[k x] r IH]; simpl; try reflexivity.
-  - destruct (pass1 x); simpl; rewrite IH; reflexivity.
-  - destruct (pass2 x); simpl; rewrite IH; reflexivity.
-  - destruct (pass3 x); simpl; rewrite IH; reflexivity.
+  cbn [inline_of]. f_equal. destruct tn; unfold ordn.
+  - unfold order3. rewrite !map_app.
+    f_equal; [|f_equal]; induction m as [|[k x] r IH]; simpl; try reflexivity.
+    + destruct (pass1 x); simpl; rewrite IH; reflexivity.
+    + destruct (pass2 x); simpl; rewrite IH; reflexivity.
+    + destruct (pass3 x); simpl; rewrite IH; reflexivity.
+  - induction m as [|[k x] r IH]; simpl; [reflexivity|]. rewrite IH. reflexivity.
 Qed.
 
-Lemma inline_of_fmt ml v : inline_of ml v = fmt_value ml (ser_value v).
+Lemma Forall_ordn {P : bytes * tv -> Prop} tn m : Forall P m -> Forall P (ordn tn m).
+Proof.
+  intro H. destruct tn; [|exact H]. unfold ordn, order3. rewrite !Forall_app_iff.
+  repeat split; apply Forall_filter; exact H.
+Qed.
+
+Lemma inline_of_fmt ml tn v : inline_of ml tn v = fmt_value ml (ser_g tn v).
 Proof.
   induction v as [t|l IH|m IH] using tv_ind'.
-  - reflexivity.
-  - cbn [inline_of ser_value fmt_value]. rewrite map_length, map_map. f_equal. apply Forall_map_ext. exact IH.
-  - rewrite inline_of_tab, ser_value_tab, fmt_value_inl, map_map. f_equal.
-    apply Forall_map_ext. unfold order3. rewrite !Forall_app_iff.
-    repeat split; apply Forall_filter; (eapply Forall_impl; [|exact IH]); intros [k x] H; simpl in *; congruence.
+  - rewrite ser_g_leaf. reflexivity.
+  - rewrite ser_g_arr. cbn [inline_of fmt_value]. rewrite map_length, map_map. f_equal. apply Forall_map_ext. exact IH.
+  - rewrite inline_of_tab, ser_g_tab, fmt_value_inl, map_map. f_equal.
+    apply Forall_map_ext. apply Forall_ordn.
+    eapply Forall_impl; [|exact IH]. intros [k x] H; unfold ser_kv_g; simpl in *; congruence.
 Qed.
 
-Lemma is_inl_ser x : is_inl (ser_value x) = is_table x.
-Proof. destruct x as [t|l|m]; reflexivity. Qed.
+Lemma is_inl_ser tn x : is_inl (ser_g tn x) = is_table x.
+Proof. destruct tn; destruct x as [t|l|m]; reflexivity. Qed.
 
-Lemma aot_able_ser l : aot_able (map ser_value l) = is_aot (TArr l).
+Lemma aot_able_ser tn l : aot_able (map (ser_g tn) l) = is_aot (TArr l).
 Proof.
   unfold aot_able. rewrite nonempty_map, forallb_map.
-  assert (E : forallb (fun x => is_inl (ser_value x)) l = forallb is_table l).
+  assert (E : forallb (fun x => is_inl (ser_g tn x)) l = forallb is_table l).
   { induction l as [|x r IH]; simpl; [reflexivity|]. rewrite is_inl_ser, IH. reflexivity. }
   rewrite E. destruct l; reflexivity.
 Qed.
 
 (* what an entry of a table becomes *)
-Lemma item_line ml x : is_line x = true -> fmt_item ml (ser_value x) = IVal (inline_of ml x).
+Lemma item_line ml tn x : is_line x = true -> fmt_item ml (ser_g tn x) = IVal (inline_of ml tn x).
 Proof.
   unfold is_line. destruct x as [t|l|m]; cbn [is_table negb andb]; try discriminate; intro H.
-  - reflexivity.
-  - cbn [ser_value]. rewrite fmt_item_arr, aot_able_ser. apply negb_true_iff in H. rewrite H.
-    rewrite inline_of_fmt. reflexivity.
+  - rewrite ser_g_leaf. reflexivity.
+  - rewrite (inline_of_fmt ml tn (TArr l)), ser_g_arr, fmt_item_arr, aot_able_ser. apply negb_true_iff in H. rewrite H.
+    reflexivity.
 Qed.
 
-Definition elem_tbl (ml : bool) (e : tv) : dt := match e with TTab m => tbl3 ml m | _ => DT false [] end.
+Definition elem_tbl (ml tn : bool) (e : tv) : dt := match e with TTab m => tblg ml tn tn m | _ => DT false [] end.
 
-Lemma item_aot ml l : is_aot (TArr l) = true -> fmt_item ml (ser_value (TArr l)) = IAot (map (elem_tbl ml) l).
+Lemma item_aot ml tn l : is_aot (TArr l) = true -> fmt_item ml (ser_g tn (TArr l)) = IAot (map (elem_tbl ml tn) l).
 Proof.
-  intro H. cbn [ser_value]. rewrite fmt_item_arr, aot_able_ser, H. f_equal.
+  intro H. rewrite ser_g_arr, fmt_item_arr, aot_able_ser, H. f_equal.
   assert (A : forallb is_table l = true).
   { destruct l as [|y r]; [discriminate|]. exact H. }
   clear H. induction l as [|x r IH]; [reflexivity|].
@@ -163,28 +180,29 @@ Proof.
   - rewrite IH. f_equal; try (induction ts as [|t' q IHq]; [reflexivity|]; cbn [flat_map]; rewrite IHq; reflexivity).
 Qed.
 
-Definition elem_secs (ml : bool) (p : path) (k : bytes) (l : list tv) : list section :=
-  flat_map (fun e => sections_at ml true e (p ++ [k]) KArr) l.
-Definition aot_secs (ml : bool) (p : path) (kv : bytes * tv) : list section :=
-  if is_aot (snd kv) then match snd kv with TArr l => elem_secs ml p (fst kv) l | _ => [] end else [].
-Definition tab_secs (ml : bool) (p : path) (kv : bytes * tv) : list section :=
-  match snd kv with TTab _ => sections_at ml true (snd kv) (p ++ [fst kv]) KStd | _ => [] end.
-Definition sub_secs (ml : bool) (p : path) (kv : bytes * tv) : list section :=
+Definition elem_secs (ml tn : bool) (p : path) (k : bytes) (l : list tv) : list section :=
+  flat_map (fun e => sections_at ml tn tn e (p ++ [k]) KArr) l.
+Definition aot_secs (ml tn : bool) (p : path) (kv : bytes * tv) : list section :=
+  if is_aot (snd kv) then match snd kv with TArr l => elem_secs ml tn p (fst kv) l | _ => [] end else [].
+Definition tab_secs (ml tn : bool) (p : path) (kv : bytes * tv) : list section :=
+  match snd kv with TTab _ => sections_at ml tn tn (snd kv) (p ++ [fst kv]) KStd | _ => [] end.
+Definition sub_secs (ml tn : bool) (p : path) (kv : bytes * tv) : list section :=
   match snd kv with
-  | TTab _ => sections_at ml true (snd kv) (p ++ [fst kv]) KStd
-  | TArr l => if is_aot (snd kv) then elem_secs ml p (fst kv) l else []
+  | TTab _ => sections_at ml tn tn (snd kv) (p ++ [fst kv]) KStd
+  | TArr l => if is_aot (snd kv) then elem_secs ml tn p (fst kv) l else []
   | TLeaf _ => []
   end.
 
-Definition own_section (ml three : bool) (m : list (bytes * tv)) (p : path) (kind : skind) : list section :=
-  if own_visible kind m (own_lines ml three m) then [mkSec p kind (own_lines ml three m)] else [].
+Definition own_section (ml three tn : bool) (m : list (bytes * tv)) (p : path) (kind : skind) : list section :=
+  if own_visible kind m (own_lines ml three tn m) then [mkSec p kind (own_lines ml three tn m)] else [].
 
-Lemma sections_at_tab ml three m p kind :
-  sections_at ml three (TTab m) p kind =
-  own_section ml three m p kind ++
-  (if three then flat_map (aot_secs ml p) m ++ flat_map (tab_secs ml p) m else flat_map (sub_secs ml p) m).
+Definition rest_secs (ml three tn : bool) (m : list (bytes * tv)) (p : path) : list section :=
+  if three then flat_map (aot_secs ml tn p) m ++ flat_map (tab_secs ml tn p) m else flat_map (sub_secs ml tn p) m.
+
+Lemma sections_at_tab ml three tn m p kind :
+  sections_at ml three tn (TTab m) p kind = own_section ml three tn m p kind ++ rest_secs ml three tn m p.
 Proof.
-  cbn [sections_at]. unfold own_section. f_equal. destruct three.
+  cbn [sections_at]. unfold own_section, rest_secs. f_equal. destruct three.
   - f_equal.
     + induction m as [|[k x] r IH]; [reflexivity|]. cbn [flat_map]. rewrite <- IH. f_equal;
       try (unfold aot_secs; cbn [fst snd]; destruct (is_aot x); [|reflexivity];
@@ -197,16 +215,16 @@ Proof.
          induction l as [|e q IHq]; [reflexivity|]; cbn [flat_map]; rewrite <- IHq; reflexivity).
 Qed.
 
-Lemma sections_at_not_tab ml three v p kind : is_table v = false -> sections_at ml three v p kind = [].
+Lemma sections_at_not_tab ml three tn v p kind : is_table v = false -> sections_at ml three tn v p kind = [].
 Proof. destruct v; [reflexivity|reflexivity|discriminate]. Qed.
 
 (* ------------------------------------------------------------------------------------------ *)
 (** * the key/value lines of a table *)
 
-Lemma item_cases ml x :
-  (is_line x = true /\ fmt_item ml (ser_value x) = IVal (inline_of ml x)) \/
-  (exists m', x = TTab m' /\ fmt_item ml (ser_value x) = ITbl (tbl3 ml m')) \/
-  (exists l, x = TArr l /\ is_aot x = true /\ fmt_item ml (ser_value x) = IAot (map (elem_tbl ml) l)).
+Lemma item_cases ml tn x :
+  (is_line x = true /\ fmt_item ml (ser_g tn x) = IVal (inline_of ml tn x)) \/
+  (exists m', x = TTab m' /\ fmt_item ml (ser_g tn x) = ITbl (tblg ml tn tn m')) \/
+  (exists l, x = TArr l /\ is_aot x = true /\ fmt_item ml (ser_g tn x) = IAot (map (elem_tbl ml tn) l)).
 Proof.
   destruct x as [t|l|m'].
   - left. split; [reflexivity|]. apply item_line. reflexivity.
@@ -217,11 +235,11 @@ Proof.
   - right. left. exists m'. split; [reflexivity|]. apply fmt_item_tab.
 Qed.
 
-Lemma get_values_items ml l : get_values (map (item_of ml) l) = lines_where ml is_line l.
+Lemma get_values_items ml tn l : get_values (map (item_of ml tn) l) = lines_where ml tn is_line l.
 Proof.
   unfold get_values, lines_where. induction l as [|[k x] r IH]; [reflexivity|].
   cbn [map flat_map filter fst snd]. rewrite IH. unfold item_of at 1. cbn [fst snd].
-  destruct (item_cases ml x) as [[L E]|[(m' & -> & E)|(l' & -> & A & E)]]; rewrite E.
+  destruct (item_cases ml tn x) as [[L E]|[(m' & -> & E)|(l' & -> & A & E)]]; rewrite E.
   - rewrite L. reflexivity.
   - reflexivity.
   - unfold is_line. rewrite A. reflexivity.
@@ -238,7 +256,7 @@ Proof. intro H. induction l as [|x r IH]; [reflexivity|]. cbn [filter]. rewrite 
 Lemma filter_none {A} (f : A -> bool) l : (forall x, f x = false) -> filter f l = [].
 Proof. intro H. induction l as [|x r IH]; [reflexivity|]. cbn [filter]. rewrite H. exact IH. Qed.
 
-Lemma lines_where_app ml p l l' : lines_where ml p (l ++ l') = lines_where ml p l ++ lines_where ml p l'.
+Lemma lines_where_app ml tn p l l' : lines_where ml tn p (l ++ l') = lines_where ml tn p l ++ lines_where ml tn p l'.
 Proof. unfold lines_where. rewrite filter_app, map_app. reflexivity. Qed.
 
 Lemma line_pass1 x : pass1 x && is_line x = is_plain x.
@@ -255,9 +273,10 @@ Qed.
 Lemma line_pass3 x : pass3 x && is_line x = false.
 Proof. unfold pass3, is_line. destruct (is_table x); reflexivity. Qed.
 
-Lemma own_lines_three ml m : lines_where ml is_line (order3 m) = own_lines ml true m.
+Lemma own_lines_ordn ml three tn m : lines_where ml tn is_line (ordn three m) = own_lines ml three tn m.
 Proof.
-  unfold order3, own_lines. rewrite !lines_where_app. unfold lines_where. rewrite !filter_filter.
+  destruct three; [|reflexivity].
+  unfold ordn, order3, own_lines. rewrite !lines_where_app. unfold lines_where. rewrite !filter_filter.
   rewrite (filter_ext' _ (fun kv => is_plain (snd kv)) m) by (intro; apply line_pass1).
   rewrite (filter_ext' (fun x => pass2 (snd x) && is_line (snd x)) (fun kv => is_mixed (snd kv)) m) by (intro; apply line_pass2).
   rewrite (filter_none (fun x => pass3 (snd x) && is_line (snd x)) m) by (intro; apply line_pass3).
@@ -273,34 +292,35 @@ Definition kind_of (p : path) (a : bool) : skind :=
 Lemma kind_of_snoc p k a : kind_of (p ++ [k]) a = if a then KArr else KStd.
 Proof. destruct p; reflexivity. Qed.
 
-Lemma visit_table_own ml three m items p a :
-  get_values items = own_lines ml three m ->
-  visit_table (DT (nonempty m) items, p, a) = own_section ml three m p (kind_of p a).
+Lemma visit_table_own ml three tn m items p a :
+  get_values items = own_lines ml three tn m ->
+  visit_table (DT (nonempty m) items, p, a) = own_section ml three tn m p (kind_of p a).
 Proof.
   intro H. unfold visit_table, own_section. rewrite H. destruct p as [|k p]; [reflexivity|].
   cbn [kind_of]. destruct a; reflexivity.
 Qed.
 
 (* the equation for one table, at any path *)
-Definition emit_eq (ml : bool) (m : list (bytes * tv)) : Prop :=
-  forall p a, flat_map visit_table (visit_nested (tbl3 ml m) p a) = sections_at ml true (TTab m) p (kind_of p a).
-Definition emit_ok (ml : bool) (v : tv) : Prop :=
-  (forall m, v = TTab m -> emit_eq ml m) /\
-  (forall l, v = TArr l -> Forall (fun e => forall m, e = TTab m -> emit_eq ml m) l).
+Definition emit_eq (ml three tn : bool) (m : list (bytes * tv)) : Prop :=
+  forall p a, flat_map visit_table (visit_nested (tblg ml three tn m) p a)
+              = sections_at ml three tn (TTab m) p (kind_of p a).
+Definition emit_ok (ml tn : bool) (v : tv) : Prop :=
+  (forall m, v = TTab m -> emit_eq ml tn tn m) /\
+  (forall l, v = TArr l -> Forall (fun e => forall m, e = TTab m -> emit_eq ml tn tn m) l).
 
-Definition item_secs (ml : bool) (p : path) (kv : bytes * tv) : list section :=
-  flat_map visit_table (sub_visit p (item_of ml kv)).
+Definition item_secs (ml tn : bool) (p : path) (kv : bytes * tv) : list section :=
+  flat_map visit_table (sub_visit p (item_of ml tn kv)).
 
-Lemma items_secs ml p l :
-  flat_map visit_table (flat_map (sub_visit p) (map (item_of ml) l)) = flat_map (item_secs ml p) l.
+Lemma items_secs ml tn p l :
+  flat_map visit_table (flat_map (sub_visit p) (map (item_of ml tn) l)) = flat_map (item_secs ml tn p) l.
 Proof.
   induction l as [|kv r IH]; [reflexivity|]. cbn [map flat_map]. rewrite flat_map_app, IH. reflexivity.
 Qed.
 
-Lemma item_secs_sub ml p kv : emit_ok ml (snd kv) -> item_secs ml p kv = sub_secs ml p kv.
+Lemma item_secs_sub ml tn p kv : emit_ok ml tn (snd kv) -> item_secs ml tn p kv = sub_secs ml tn p kv.
 Proof.
   destruct kv as [k x]. cbn [snd]. intros [Ht Ha]. unfold item_secs, item_of, sub_visit, sub_secs. cbn [fst snd].
-  destruct (item_cases ml x) as [[L E]|[(m' & -> & E)|(l' & -> & A & E)]]; rewrite E.
+  destruct (item_cases ml tn x) as [[L E]|[(m' & -> & E)|(l' & -> & A & E)]]; rewrite E.
   - cbn [flat_map]. destruct x as [t|l|m']; [reflexivity| |discriminate].
     unfold is_line in L. cbn [is_table negb andb] in L. apply negb_true_iff in L. rewrite L. reflexivity.
   - rewrite (Ht m' eq_refl). rewrite kind_of_snoc. reflexivity.
@@ -316,7 +336,7 @@ Qed.
 Lemma flat_map_ext_Forall {A B} (f g : A -> list B) l : Forall (fun x => f x = g x) l -> flat_map f l = flat_map g l.
 Proof. induction 1 as [|x r H _ IH]; [reflexivity|]. cbn [flat_map]. rewrite H, IH. reflexivity. Qed.
 
-Lemma sub_secs_pass1 ml p m : flat_map (sub_secs ml p) (filter (fun kv => pass1 (snd kv)) m) = [].
+Lemma sub_secs_pass1 ml tn p m : flat_map (sub_secs ml tn p) (filter (fun kv => pass1 (snd kv)) m) = [].
 Proof.
   induction m as [|[k x] r IH]; [reflexivity|]. cbn [filter snd]. destruct (pass1 x) eqn:E; [|exact IH].
   cbn [flat_map]. rewrite IH, app_nil_r. unfold sub_secs. cbn [fst snd].
@@ -325,8 +345,8 @@ Proof.
   apply is_aot_any in A. unfold pass1 in E. cbn in E, A. rewrite A in E. discriminate.
 Qed.
 
-Lemma sub_secs_pass2 ml p m :
-  flat_map (sub_secs ml p) (filter (fun kv => pass2 (snd kv)) m) = flat_map (aot_secs ml p) m.
+Lemma sub_secs_pass2 ml tn p m :
+  flat_map (sub_secs ml tn p) (filter (fun kv => pass2 (snd kv)) m) = flat_map (aot_secs ml tn p) m.
 Proof.
   induction m as [|[k x] r IH]; [reflexivity|]. cbn [filter snd flat_map]. rewrite <- IH.
   unfold aot_secs at 1. cbn [fst snd].
@@ -336,25 +356,29 @@ Proof.
   - destruct (is_aot x) eqn:A; [|reflexivity]. apply is_aot_any in A. unfold pass2 in E. congruence.
 Qed.
 
-Lemma sub_secs_pass3 ml p m :
-  flat_map (sub_secs ml p) (filter (fun kv => pass3 (snd kv)) m) = flat_map (tab_secs ml p) m.
+Lemma sub_secs_pass3 ml tn p m :
+  flat_map (sub_secs ml tn p) (filter (fun kv => pass3 (snd kv)) m) = flat_map (tab_secs ml tn p) m.
 Proof.
   induction m as [|[k x] r IH]; [reflexivity|]. cbn [filter snd flat_map]. rewrite <- IH.
   unfold tab_secs at 1. cbn [fst snd]. destruct x as [t|l|m']; reflexivity.
 Qed.
 
-Lemma emit_level ml m : Forall (fun kv => emit_ok ml (snd kv)) m -> emit_eq ml m.
+Lemma sub_secs_ordn ml three tn p m : flat_map (sub_secs ml tn p) (ordn three m) = rest_secs ml three tn m p.
 Proof.
-  intros IH p a. unfold tbl3. rewrite visit_nested_eq. cbn [flat_map]. rewrite sections_at_tab. f_equal.
-  - apply visit_table_own. rewrite get_values_items. apply own_lines_three.
-  - rewrite items_secs.
-    rewrite (flat_map_ext_Forall (item_secs ml p) (sub_secs ml p)).
-    + unfold order3. rewrite !flat_map_app, sub_secs_pass1, sub_secs_pass2, sub_secs_pass3. reflexivity.
-    + unfold order3. rewrite !Forall_app_iff.
-      repeat split; apply Forall_filter; (eapply Forall_impl; [|exact IH]); intros kv H; apply item_secs_sub; exact H.
+  unfold rest_secs. destruct three; [|reflexivity].
+  unfold ordn, order3. rewrite !flat_map_app, sub_secs_pass1, sub_secs_pass2, sub_secs_pass3. reflexivity.
 Qed.
 
-Lemma emit_ok_all ml v : emit_ok ml v.
+(* one table, whoever ordered its entries, given the equation for the tables below it *)
+Lemma emit_level ml three tn m : Forall (fun kv => emit_ok ml tn (snd kv)) m -> emit_eq ml three tn m.
+Proof.
+  intros IH p a. unfold tblg. rewrite visit_nested_eq. cbn [flat_map]. rewrite sections_at_tab. f_equal.
+  - apply visit_table_own. rewrite get_values_items. apply own_lines_ordn.
+  - rewrite items_secs. rewrite <- sub_secs_ordn. apply flat_map_ext_Forall. apply Forall_ordn.
+    eapply Forall_impl; [|exact IH]. intros kv H. apply item_secs_sub. exact H.
+Qed.
+
+Lemma emit_ok_all ml tn v : emit_ok ml tn v.
 Proof.
   induction v as [t|l IH|m IH] using tv_ind'.
   - split; intros ? E; discriminate.
@@ -363,20 +387,23 @@ Proof.
   - split; intros ? E; [|discriminate]. injection E as <-. apply emit_level. exact IH.
 Qed.
 
-(* ------------------------------------------------------------------------------------------ *)
-(** * the two printers write the canonical document *)
+Lemma emit_eq_all ml three tn m : emit_eq ml three tn m.
+Proof. apply emit_level. apply Forall_forall. intros kv _. apply emit_ok_all. Qed.
 
-Theorem emit_value_doc_canonical ml m : emit_value_doc ml m = sections_of ml true m.
+(* ------------------------------------------------------------------------------------------ *)
+(** * the printers write the canonical document *)
+
+Theorem emit_value_doc_canonical ml m : emit_value_doc ml m = sections_of ml true true m.
 Proof.
-  unfold emit_value_doc, emit_root, sections_of. rewrite fmt_root_value.
-  exact (proj1 (emit_ok_all ml (TTab m)) m eq_refl [] false).
+  unfold emit_value_doc, emit_root, sections_of. rewrite fmt_root_value. exact (emit_eq_all ml true true m [] false).
 Qed.
 
-Theorem emit_table_doc_canonical ml m : emit_table_doc ml m = sections_of ml false m.
+Theorem emit_table_doc_canonical ml m : emit_table_doc ml m = sections_of ml false true m.
 Proof.
-  unfold emit_table_doc, emit_root, sections_of. rewrite fmt_root_map. unfold tbl1.
-  rewrite visit_nested_eq. cbn [flat_map]. rewrite sections_at_tab. f_equal.
-  - apply (visit_table_own ml false m _ [] false). rewrite get_values_items. reflexivity.
-  - rewrite items_secs. apply flat_map_ext_Forall. apply Forall_forall. intros kv _.
-    apply item_secs_sub. apply emit_ok_all.
+  unfold emit_table_doc, emit_root, sections_of. rewrite fmt_root_map. exact (emit_eq_all ml false true m [] false).
+Qed.
+
+Theorem emit_struct_doc_canonical ml m : emit_struct_doc ml m = sections_of ml false false m.
+Proof.
+  unfold emit_struct_doc, emit_root, sections_of. rewrite fmt_root_plain. exact (emit_eq_all ml false false m [] false).
 Qed.
